@@ -94,7 +94,7 @@ def choose_filters(rng, desc):
     elif r < 0.35:
         mt2 = "inf"
     else:
-        t = max(rng.choice(times), rng.choice(times)) if rng.random() < 0.8 else rng.choice([t for _f, t in desc["nodes"]])
+        t = max(rng.choice(times), rng.choice(times)) if rng.random() < 0.8 else rng.choice([t for _f, t in desc["nodes"]] or [0])
         mt2 = max(0, 2 * t + rng.choice([-1, 0, 0, 1]))
     return ms2, mt2
 
